@@ -1,0 +1,45 @@
+//go:build verif
+
+package bridgesync
+
+import (
+	"context"
+
+	"github.com/agglayer/aggkit/log"
+	"github.com/agglayer/aggkit/sync"
+	aggkittypes "github.com/agglayer/aggkit/types"
+	"github.com/ethereum/go-ethereum/common"
+)
+
+// This file only exists under the `verif` build tag. It exposes the real bridge processor behind
+// the real BridgeSync facade, without a downloader/driver, for the external verification harness.
+
+// NewVerif builds a BridgeSync around the real processor (newProcessor) on dbPath.
+func NewVerif(dbPath, name string, originNetwork uint32) (*BridgeSync, error) {
+	p, err := newProcessor(dbPath, name, log.WithFields("module", "verif-"+name))
+	if err != nil {
+		return nil, err
+	}
+	return &BridgeSync{processor: p, originNetwork: originNetwork, blockFinality: aggkittypes.LatestBlock}, nil
+}
+
+// VerifProcessBlock calls the real processor.ProcessBlock.
+func (s *BridgeSync) VerifProcessBlock(ctx context.Context, b sync.Block) error {
+	return s.processor.ProcessBlock(ctx, b)
+}
+
+// VerifReorg calls the real processor.Reorg.
+func (s *BridgeSync) VerifReorg(ctx context.Context, firstReorgedBlock uint64) error {
+	return s.processor.Reorg(ctx, firstReorgedBlock)
+}
+
+// VerifHalted reports the processor's halted flag.
+func (s *BridgeSync) VerifHalted() bool { return s.processor.isHalted() }
+
+// VerifClose closes the processor's database handle.
+func (s *BridgeSync) VerifClose() error { return s.processor.db.Close() }
+
+// VerifSetClaimCalldata calls the real (*Claim).setClaimCalldata.
+func VerifSetClaimCalldata(c *Claim, client aggkittypes.RPCClienter, bridge common.Address, txHash common.Hash) error {
+	return c.setClaimCalldata(client, bridge, txHash, log.WithFields("module", "verif-claim"))
+}
